@@ -115,7 +115,10 @@ func (f *Frame) siteMapWrite(x *ssa.MapUpdate) {
 		env := f.siteEnv()
 		env.vars["key"] = f.val(x.Key)
 		env.vars["value"] = f.val(x.Value)
-		goal := env.evalBool(sc.Expr)
+		goal, inScope := evalSiteClause(env, sc.Expr)
+		if !inScope {
+			continue // the clause names a local that is not in scope at this write
+		}
 		f.oblige(fmt.Sprintf("site:mapwrite.%d", i), goal, "every write to "+g+" in this function: "+sc.Text, x.Pos(), sc.Tags, true)
 	}
 }
@@ -318,4 +321,30 @@ func (vc *VC) calledLocsIn(li *loopInfo) []string {
 		}
 	}
 	return out
+}
+
+// globalstore[Cxx] <pkg.Global> <expr>: the expression must hold at every store to that
+// package-level variable in the function (`F/site:store.<i>#n`); `value` is the stored value
+func (f *Frame) siteGlobalStore(x *ssa.Store) {
+	vc := f.vc
+	if !f.top || vc.contract == nil || vc.pure > 0 {
+		return
+	}
+	g, ok := x.Addr.(*ssa.Global)
+	if !ok {
+		return
+	}
+	name := g.Pkg.Pkg.Name() + "." + g.Name()
+	for i, sc := range vc.contract.Sites {
+		if sc.Kind != "globalstore" || sc.Target != name {
+			continue
+		}
+		env := f.siteEnv()
+		env.vars["value"] = f.val(x.Val)
+		goal, inScope := evalSiteClause(env, sc.Expr)
+		if !inScope {
+			continue
+		}
+		f.oblige(fmt.Sprintf("site:store.%d", i), goal, "every store to "+name+" in this function: "+sc.Text, x.Pos(), sc.Tags, true)
+	}
 }
